@@ -21,7 +21,32 @@ PROGRAMS = [  # (program over inputs a, b; outputs: list of (public name, variab
 ]
 
 
+NUMS = [x for x in ALL if x.lstrip("n") not in ("utf8", "bool")]
+# results assembled by library functions (struct results are rebuilt field by field inside them): (program, outputs, dtypes of a)
+LIB_PROGRAMS = [
+    ("c = a > 0; r = ndx.where(c, a, a + 1)", [("w", "r")], NUMS),
+    ("r = ndx.where(a > 0, a, 0)", [("w", "r"), ("src", "a")], NUMS),
+    ("r = a + 1; s = a * a", [("p", "r"), ("q", "s")], NUMS),
+    ("r = ndx.additional.make_nullable(a, a > 0)", [("mn", "r")], [x for x in NUMS if not x.startswith("n")]),
+    ("r = ndx.concat([ndx.reshape(a, [-1]), ndx.reshape(a, [-1])])", [("cc", "r")], [x for x in ALL if not x.startswith("n")]),
+    ("r = ndx.sum(a)", [("total", "r")], [x for x in NUMS if x not in ("uint64", "nuint64")]),
+    ("r = a[...]; r[...] = a", [("assigned", "r")], ALL),
+    ("r = ndx.astype(a, ndx.nfloat64)", [("cast", "r")], NUMS),
+    ("r = ndx.where(a == a, a, a)", [("w2", "r")], [x for x in ALL if x.startswith("n")]),
+    ("r = ndx.logical_and(a > 0, a < 5)", [("m", "r")], NUMS),
+    ("r = ndx.additional.fill_null(a, a.values) if hasattr(a, 'null') and a.null is not None else a + 0", [("filled", "r")], [x for x in NUMS if x.startswith("n")]),
+]
+
+
 def gen_case(rnd, i):
+    if i % 3 == 2:
+        prog, outs, dts = rnd.choice(LIB_PROGRAMS)
+        d = rnd.choice(dts)
+        r = rnd.randint(0, 2)
+        sig = [rnd.choice([rnd.randint(1, 3), "N", None]) for _ in range(r)]
+        conc = [s_ if isinstance(s_, int) else rnd.choice([1, 2, 3]) for s_ in sig]
+        return {"id": f"B-{i}", "inputs": {"a": {"dtype": d, "sig": sig}}, "input_order": ["a"], "program": prog, "outputs": outs,
+                "values": {"a": ops.tensor(rnd, d, conc, "small")}, "meta": {"dtype": d, "sig": sig}}
     d = rnd.choice(ALL + ["pair", "pair"])
     d2 = rnd.choice(ALL)
     r = rnd.randint(0, 3)
